@@ -117,6 +117,7 @@ func c19values(p int) map[string]*variants.Variant {
 		"d": variants.VariantFromLong(int64(-100 * p)), "s": variants.VariantFromString(fmt.Sprintf("s%d", p)),
 		"arr": variants.VariantFromArray([]*variants.Variant{variants.VariantFromInteger(p), variants.VariantFromInteger(p + 2), variants.VariantFromString("x"), variants.VariantFromDouble(float64(p) + 1.5)}),
 		"f": variants.VariantFromFloat(float32(p) + 0.25), "t": variants.VariantFromBoolean(p%2 == 0), "n": variants.EmptyVariant(),
+		"big": variants.VariantFromInteger(100 + p), "lbig": variants.VariantFromLong(int64(70 + p)),
 	}
 }
 
@@ -149,7 +150,8 @@ func newC19subject(what, text string, procs int) (*c19subject, error) {
 			return nil, err
 		}
 		for p := 1; p <= procs; p++ {
-			m := map[string]string{"__proc": fmt.Sprint(p), "a": fmt.Sprintf("a%d", p), "B": []string{"", "yes"}[p%2], "c": fmt.Sprintf("c\"%d/", p), "D": []string{"dd", ""}[p%2]}
+			m := map[string]string{"__proc": fmt.Sprint(p), "a": fmt.Sprintf("a%d", p), "B": []string{"", "yes"}[p%2], "c": fmt.Sprintf("c\"%d/", p), "D": []string{"dd", ""}[p%2],
+				"s": fmt.Sprintf("ess%d", p), "\u017f": fmt.Sprintf("long%d", p), "k": "kay", "\u03c3": "sigma", "\u03c2": "final"}
 			s.envs = append(s.envs, m)
 		}
 	}
@@ -617,6 +619,9 @@ func genC19(g *Gen) {
 		{"calc", "a + b"}, {"calc", "a + b * c - d"}, {"calc", "Min(a, b) + c"}, {"calc", "arr[b - b] + Sum(c, d, a)"}, {"calc", "a IN arr AND s = 's1'"},
 		{"calc", "c ^ 2 + a"}, {"calc", "arr[3] ^ 2 - f ^ b"}, {"calc", "-c + Abs(c) + Round(f)"}, {"calc", "NOT t OR n IS NULL"}, {"calc", "s + a + c"},
 		{"calc", "If(n IS NULL, c, a) * c"}, {"calc", "Abs(d) + d + Abs(-f)"}, {"calc", "Min(d, a) - Max(d, c)"}, {"calc", "Max(c, f) / c"}, {"calc", "a % b + (a << 1) - d"},
+		{"calc", "Sum('a', 'b', 'c', 'd', 'e', 'f', 'g', 'h', 'i', 'j')"}, {"calc", "Sum(s, 'b', s, 'c', s, 'd', s, 'e', s, 'f') + s"}, {"calc", "Sum(1, 2, 3, 4, 5, 6, 7, 8, 9, 10, a) + Max(a, 1, 2, 3, 4, 5, 6, 7, 8, 9)"},
+		{"calc", "big + (1 << big)"}, {"calc", "(a >> 70) + 70 + (1 << 65)"}, {"calc", "(a << lbig) + lbig"}, {"calc", "Concat(s, 'x', s) + s"}, {"calc", "arr[0] + Array(a, b, s)[2] + Sum(arr[0], arr[1])"},
+		{"tmpl", "{{s}}-{{\u017f}}-{{S}}"}, {"tmpl", "{{k}}{{#\u03c3}}x{{/\u03c3}}{{\u03c2}}"},
 		{"tmpl", "{{A}}{{C}}"}, {"tmpl", "Hi {{A}}{{#b}}[{{{C}}}]{{/b}}{{^d}}n{{/d}}"},
 	}
 	for _, pg := range progs {
